@@ -278,7 +278,10 @@ def check(tier: str) -> Result:
         whyx = f"maximum stored as {[txt(x, 4, 60) for x in mx]}"
         if mx and nv is not None:
             b, k = linear(unwrap(mx[-1]))
-            okx = b is not None and unwrap(b) is nv and k == -1
+            b0 = unwrap(b) if b is not None else None
+            if b0 is not None and b0.kind == "attr" and b0.args[0].kind == "self" and ia.get(b0.args[1]):
+                b0 = unwrap(uncopy(ia[b0.args[1]][-1]))      # self._num_values, stored from the parameter just before
+            okx = b0 is not None and b0 is nv and k == -1
         res.add("C16.R7", init.loc(), f"specs.{n}.__init__", "maximum = num_values - 1", okx, whyx)
         okn = False
         if mn:
